@@ -206,7 +206,13 @@ pub fn format_general(
                 let magnitude = format_fixed(precision, magnitude, case, false);
                 let base = maybe_remove_trailing_redundant_chars(magnitude, alternate_form);
                 let point = decimal_point_or_empty(precision, alternate_form);
-                format!("{base}{point}")
+                // like repr, the no-type presentation keeps ".0" on an integral result
+                let dot_zero = if always_shows_fract && !base.contains('.') {
+                    ".0"
+                } else {
+                    ""
+                };
+                format!("{base}{point}{dot_zero}")
             }
         }
         magnitude if magnitude.is_nan() => format_nan(case),
